@@ -7,6 +7,8 @@ import (
 	"sort"
 	"strings"
 
+	sdkerrors "github.com/cosmos/cosmos-sdk/types/errors"
+
 	sdk "github.com/cosmos/cosmos-sdk/types"
 	authtypes "github.com/cosmos/cosmos-sdk/x/auth/types"
 	banktypes "github.com/cosmos/cosmos-sdk/x/bank/types"
@@ -273,6 +275,11 @@ type TxResult struct {
 	Data    []byte
 	Log     string
 	Signers []string
+	// what a node puts into the deterministic part of the transaction response besides Data: the error code and
+	// the gas used (both enter LastResultsHash)
+	Gas       uint64
+	Code      uint32
+	Codespace string
 }
 
 // RunTx does what baseapp.runTx does for one message, minus the ante handler: ValidateBasic, the handler
@@ -302,16 +309,18 @@ func (w *World) RunTx(ctx sdk.Context, a Action) (res TxResult, herr error) {
 		return res, fmt.Errorf("no handler for %s", method)
 	}
 	cctx, write := ctx.CacheContext()
-	cctx = cctx.WithEventManager(sdk.NewEventManager())
+	cctx = cctx.WithEventManager(sdk.NewEventManager()).WithGasMeter(sdk.NewInfiniteGasMeter())
 	func() {
 		defer func() {
 			if r := recover(); r != nil {
 				res.Err = fmt.Sprintf("panic: %v", r)
 			}
+			res.Gas = cctx.GasMeter().GasConsumed()
 		}()
 		r, err := h(cctx, msg)
 		if err != nil {
 			res.Err = err.Error()
+			res.Codespace, res.Code, _ = sdkerrors.ABCIInfo(err, false)
 			return
 		}
 		res.OK = true
